@@ -47,8 +47,7 @@ class Shadow:
         if old is None:
             self.recs[k] = {"t": typ, "v": 0 if typ == "void" else val, "created": c, "updated": u, "expire": e}
             return
-        if typ != "void":        # SetContentVoid on typed content keeps the content (not an index matter)
-            old["t"], old["v"] = typ, val
+        old["t"], old["v"] = typ, (0 if typ == "void" else val)   # a void Set leaves a void treasure
         if c:
             old["created"] = c
         if u:
